@@ -168,18 +168,33 @@ func kaGoroutine(c *Ctx, fl *ast.FuncLit, bad func(string, ...any), timeout, tim
 			out = append(out, c.Src(st))
 			continue
 		}
-		if fs.Init != nil || fs.Cond != nil || fs.Post != nil || len(fs.Body.List) != 1 {
-			bad("loop is not `for { select {…} }`")
+		// `for { select {…} }`, optionally with the cancellation test in front of the select
+		// (`if ctx.Err() != nil { return }`: the cancellation wins over a tick that is pending)
+		body := fs.Body.List
+		pre := false
+		if len(body) == 2 {
+			if is, isif := body[0].(*ast.IfStmt); isif && is.Init == nil && is.Else == nil && c.Src(is.Cond) == "ctx.Err() != nil" && len(is.Body.List) == 1 {
+				if rs, isret := is.Body.List[0].(*ast.ReturnStmt); isret && len(rs.Results) == 0 {
+					pre, body = true, body[1:]
+				}
+			}
+		}
+		if fs.Init != nil || fs.Cond != nil || fs.Post != nil || len(body) != 1 {
+			bad("loop is not `for { [if ctx.Err() != nil { return }] select {…} }`")
 			out = append(out, "?"+c.Src(st))
 			continue
 		}
-		sel, ok := fs.Body.List[0].(*ast.SelectStmt)
+		sel, ok := body[0].(*ast.SelectStmt)
 		if !ok {
 			bad("loop body is not a select")
 			out = append(out, "?"+c.Src(st))
 			continue
 		}
-		out = append(out, "for { select {")
+		if pre {
+			out = append(out, "for { if ctx.Err() != nil { return }; select {")
+		} else {
+			out = append(out, "for { select {")
+		}
 		for _, cl := range sel.Body.List {
 			cc := cl.(*ast.CommClause)
 			if cc.Comm == nil {
